@@ -724,7 +724,8 @@ def features(case, res):
     kind = case["kind"]
     f = ["kind=" + kind, "status=" + res["status"]]
     if res["status"] == "err":
-        f.append(f"{kind}:err=" + res.get("err", "?"))
+        inner = next((x for x in res.values() if isinstance(x, dict) and x.get("status") == "err"), res)
+        f.append(f"{kind}:err=" + inner.get("err", res.get("err", "?")))
     if "M" in case:
         M = case["M"]
         f.append("M=" + (str(M) if is_pow2(M) and M <= 256 else ("pow2>256" if is_pow2(M) else ("M<=0" if M <= 0 else "nonpow2"))))
